@@ -161,7 +161,7 @@ def jobs(tier, seed, first_id):
         total = 1
         for p in pools:
             total *= len(p)
-        cap = 300 if tier == "quick" else 40000
+        cap = 300 if tier == "quick" else 6000
         jid += 1
         out.append({"mode": "calls", "id": jid, "module": module, "fn": fn, "form": form, "pools": pools,
                     "sample": {"n": cap, "seed": seed * 65537 + k} if total > cap else None,
